@@ -27,6 +27,7 @@ CONSTANTS Role,        \* "server" | "client"
           Ctl,         \* as Program.ctl
           Closer,      \* as Program.closer
           Rd,          \* as Program.rd
+          Fault,       \* as Program.fault
           Fifo,        \* predict the lock hand-off as first-come-first-served
           OnlyBad,     \* emit only behaviours that violate the property (attack cfgs)
           Family       \* name of the cfg, copied into the case
@@ -96,6 +97,8 @@ C_close_ping        == << <<"close">>, <<"ping">> >>
 C_pong_close        == << <<"pong">>, <<"close">> >>
 C_close             == << <<"close">> >>
 C_none              == << >>
+C_ping_pong         == << <<"ping">>, <<"pong">> >>
+C_ping_pongclose    == << <<"ping">>, <<"pong", "close">> >>
 C_ping              == << <<"ping">> >>
 C_close_close       == << <<"close">>, <<"close">> >>
 C_pingpong_closeping == << <<"ping", "pong">>, <<"close", "ping">> >>
@@ -118,6 +121,16 @@ S_nwMp         == <<"nwMp">>
 S_nwLLp_wmL    == <<"nwLLp", "wmL">>
 S_wmL_nwSLp    == <<"wmL", "nwSLp">>
 \* the answers of the reader's handlers; "@": the package's default handler
+\* transport writes that fail with the transport open (Program.fault)
+F_none         == << >>
+Flt(p, c, k, some, kind) == [p |-> p, c |-> c, k |-> k, some |-> some, kind |-> kind]
+F_K1_t         == << Flt("K1", 1, 1, T, "timeout") >>            \* a control frame cut off inside its write by its deadline
+F_K1_e         == << Flt("K1", 1, 1, T, "error") >>
+F_D1hdr_t      == << Flt("D", 1, 1, T, "timeout") >>             \* a data frame cut off inside header+buffer
+F_D1extra0_e   == << Flt("D", 1, 2, F, "error") >>               \* ... between header+buffer and the caller's slice
+F_D1extra_t    == << Flt("D", 1, 2, T, "timeout") >>             \* ... inside the caller's slice
+F_D1f2_K2_t    == << Flt("D", 1, 3, T, "error"), Flt("K2", 1, 1, T, "timeout") >>   \* whichever comes first
+F_R1_t         == << Flt("R", 1, 1, T, "timeout") >>             \* the answer of a handler on the reading goroutine
 R_none         == << >>
 R_pongD        == <<"pong@">>
 R_pong         == <<"pong">>
@@ -131,7 +144,7 @@ R_pongD_pong_closeD == <<"pong@", "pong", "close@">>
 
 Plan == [i \in 1..Len(Shapes) |-> Shape(Role, Shapes[i])]
 GenProgram == [msgs |-> [i \in 1..Len(Shapes) |-> Plan[i].frames], hold |-> [i \in 1..Len(Shapes) |-> Plan[i].hold],
-               ctl |-> Ctl, rd |-> Rd, cx |-> <<>>, closer |-> Closer]
+               ctl |-> Ctl, rd |-> Rd, cx |-> <<>>, fault |-> Fault, closer |-> Closer]
 
 GenInit == Init /\ hist = <<>> /\ q = <<>>
 
@@ -171,7 +184,8 @@ AfterBegin(p) ==
          THEN (IF IsShort(CtlSeq(p)[call[p] + 1]) THEN "t" ELSE "l")
   ELSE IF Failed THEN "r" ELSE "g"
 AfterWrite(p) ==
-  IF p = "R" /\ pc[p] = "steal" /\ ~closed THEN "g"
+  IF ~closed /\ pc[p] # "steal" /\ FaultOf(p) # {} THEN "r"
+  ELSE IF p = "R" /\ pc[p] = "steal" /\ ~closed THEN "g"
   ELSE IF p # "D" \/ closed THEN "r"
   ELSE IF pc[p] = "hdr" /\ Msg[fr] THEN (IF FlushAtomic \/ q = <<>> THEN "g" ELSE "l")
   ELSE IF fr = Len(Msg) THEN "r"
@@ -195,9 +209,9 @@ Moves ==
     THEN LET p == First(BusySet) IN (IF GivesUp(p) THEN Timeout(p) ELSE Steady(p)) /\ UNCHANGED hist
   ELSE IF \E p \in Procs : CanAcquire(p) /\ Turn(p)
     THEN \E p \in Procs : CanAcquire(p) /\ Turn(p) /\ Steady(p) /\ UNCHANGED hist
-  ELSE \/ \E p \in Procs : Begin(p) /\ hist' = Append(hist, Item("b", p))
+  ELSE \/ \E p \in Procs : Begin(p) /\ (p = "R" => ~RMayStop) /\ hist' = Append(hist, Item("b", p))
        \/ Resume /\ hist' = Append(hist, Item("a", "D"))
-       \/ \E p \in Procs : TWrite(p) /\ hist' = Append(hist, Item("w", p))
+       \/ \E p \in Procs : (TWrite(p) \/ TFault(p)) /\ hist' = Append(hist, Item("w", p))
        \/ XClose /\ hist' = Append(hist, Item("w", "X"))
 
 GenStep ==
@@ -222,7 +236,7 @@ Decisive ==
 \* the peer's frames reach the reader while D has its message open: in which states of D
 ROpen == {hist[h].dopen : h \in 1..Len(hist)} \ {""}
 
-Case == [family |-> Family, role |-> Role, wbuf |-> WBuf, msgs |-> Plan, ctl |-> Ctl, rd |-> Rd, closer |-> Closer,
+Case == [family |-> Family, role |-> Role, wbuf |-> WBuf, msgs |-> Plan, ctl |-> Ctl, rd |-> Rd, fault |-> Fault, closer |-> Closer,
          sched |-> [i \in 1..Len(hist) |-> hist[i].op \o ":" \o hist[i].p \o ":" \o hist[i].exp],
          attack |-> ~Good, decisive |-> Decisive \/ "app" \in ROpen, ropen |-> ROpen]
 
